@@ -56,7 +56,9 @@ def mobsJ (m : MObs String) : J := J.arr [S m.name, optD m.content, optD m.md5]
 def dirObs (s : Dir String) : J :=
   J.obj [("c", J.arr ((obsCompleted s).map mobsJ)), ("nc", J.arr ((obsNotCompleted s).map mobsJ)),
          ("logs", J.arr ((obsLogs s).map fun p => J.arr [S p.1, J.str p.2])),
-         ("dirs", J.arr [J.bool s.ncDir, J.bool s.logsDir])]
+         ("dirs", J.arr [J.bool s.ncDir, J.bool s.logsDir]),
+         ("validate", let v := validateDir id s
+            J.arr [J.num v.correct, J.num v.incorrect, J.num v.missing, J.bool v.hasLog])]
 
 def runDir (cfg : Cfg) : Dir String → List (Op String) → List J
   | _, [] => []
